@@ -278,7 +278,7 @@ def classify_mgr(ctx, verdicts, prefixes, obs_idx, tag):
                       detail={"verdict": v, "step": step})
 
 
-def mgr_family(ctx, prefixes, families, nontrivial, quick_n=3000, model_roles=("respPush",), invariants=(), sim_quick=(8, 8), sim_thorough=(150, 12), sim_roles_quick=("respPull", "initPush"), model=True, sims=True, keep=None):
+def mgr_family(ctx, prefixes, families, nontrivial, quick_n=3000, model_roles=("respPush",), invariants=(), sim_quick=(30, 10), sim_thorough=(200, 14), sim_roles_quick=("respPull", "initPush"), model=True, sims=True, keep=None):
     # 1. design level
     for role in ((model_roles if ctx.quick() else ALL_ROLES) if model else ()):
         mgr_model(ctx, role, 2 if ctx.quick() else 3, invariants)
